@@ -82,6 +82,7 @@ def handle (j : Json) : Except String Json := do
         | .unregister h => (unregisterClosed acc.1 h .base).2.isSome
       let v' := closedStep .base acc.1 op
       (v', Json.mkObj [("raised", toJson raised), ("custom", trigsJson v'.custom),
+                       ("custom_n", toJson v'.custom.length), ("custom_ids_n", toJson v'.customIds.length),
                        ("queued", toJson v'.queued.length), ("hash", optStr v'.hash),
                        ("polled", trigsJson v'.polled)] :: acc.2)) (sFinal.svc, [])
   pure (Json.mkObj [("trace", Json.arr trace.reverse.toArray), ("quiescent", toJson (quiescent sFinal)),
